@@ -356,6 +356,45 @@ func oracleC09(r *Run, cw *cliWorld, w *muxWorld, cfg *muxCfg, lt *trackSpec, me
 		}
 		// a non-leading unit written with a timestamp far ahead of the leading units written around it is input that
 		// is not synchronised; the client's 10 s limit between decode time and real time then ends playback by design
+		// renditions fetch their playlists at different moments: when one of them starts a segment later than the
+		// leading stream and segments last many seconds (sparse key frames), its first units lie more than the
+		// client's 10 s limit ahead of the leading stream's clock
+		if cw.waitErr.Error() == "difference between DTS and RTC is too big" {
+			first := map[string]int{}
+			maxDur := time.Duration(0)
+			for _, nr := range cw.net.log {
+				if !nr.delivered || nr.resp == nil || nr.resp.status != 200 {
+					continue
+				}
+				path := nr.req.URL.Path
+				if strings.HasSuffix(path, "_stream.m3u8") {
+					if pl, err := parseMediaPlaylist(nr.resp.body); err == nil {
+						for _, sg := range pl.Segments {
+							if sg.Duration > maxDur {
+								maxDur = sg.Duration
+							}
+						}
+					}
+				} else if i := strings.Index(path, "_seg"); i >= 0 {
+					stream := path[:i]
+					if _, ok := first[stream]; !ok {
+						first[stream] = uriNumber(path)
+					}
+				}
+			}
+			differ := false
+			for _, a := range first {
+				for _, b := range first {
+					if a != b {
+						differ = true
+					}
+				}
+			}
+			if differ && maxDur >= 4*time.Second {
+				r.Probe("rendition-started-a-long-segment-later")
+				return
+			}
+		}
 		if skew := maxInputSkew(w.script); cw.waitErr.Error() == "difference between DTS and RTC is too big" && skew > 9*time.Second {
 			r.Probe("input-skew-beyond-sync-limit")
 			return
